@@ -7,11 +7,20 @@
     followed by a blank line, never interleaved with another."
 
    Proved here: the framing layer (MultiLineCodec under FramedRead) for ALL byte streams and ALL
-   partitions into reads, and the encoder/decoder round trip for any sequence of whole-message appends.
+   partitions into reads, the encoder/decoder round trip for any sequence of whole-message appends, and — over
+   Model/Driver.v, the select! loop of PluginDriver::run with its handler tasks and the log writer task sharing the
+   output mutex — for EVERY schedule of {request arrives, dispatched, handler finishes, reply taken from the channel,
+   log line emitted / taken, lock acquired by driver or logger, n bytes accepted by the pipe, lock released}: the node's
+   decoder sees exactly the completed messages, whole, once, in order (never interleaved); at most one reply per request
+   id at every moment, exactly one whenever nothing is in flight; and from every reachable state the in-flight work can
+   be finished (no reply is ever lost or stuck).
    PARTIAL: that serde_json never emits a raw newline, that FramedWrite::send under the output mutex
-   writes a whole frame, and the scheduling of handler tasks are library/runtime behaviour: exercised
-   by the `driver` engine (real Builder/PluginDriver on small duplex pipes) and by the e2e engine, not proved. *)
-From Tramp Require Import Model.Base Model.Codec Proofs.CodecProofs.
+   writes a whole frame, and that tokio schedules the tasks as Model/Driver.v's events (in particular that select! does
+   not cancel a branch HANDLER) are library/runtime behaviour: exercised by the `driver` engine (real
+   Builder/PluginDriver on small duplex pipes, with the real log writer and a node that stops reading) and by the e2e
+   engine, not proved. Model/Driver.v is tied to the code through the frames the node reads back, not event by event. *)
+From Tramp Require Import Model.Base Model.Codec Model.Driver Proofs.CodecProofs Proofs.DriverProofs.
+From Coq Require Import Permutation.
 
 (* any partition of the stream into read chunks yields the frames of the whole stream: each once, in order,
    and the same undecoded remainder *)
@@ -29,6 +38,46 @@ Proof. exact frames_of_encoded. Qed.
 (* a completion writes exactly one reply, with that request's id, and only for a pending request *)
 Theorem C17_ids : forall pending id, snd (dstep pending (DComplete id)) = if existsb (N.eqb id) pending then [id] else [].
 Proof. exact dstep_reply. Qed.
+
+(* ---- the driver loop, the handler tasks and the log writer, under every schedule ---- *)
+
+(* never interleaved: what the node has received decodes to exactly the messages written completely so far (replies and
+   log notifications), each whole, once, in the order their writers got the lock; the rest is a proper prefix of the one
+   message being written *)
+Theorem C17_never_interleaved : forall (body : msg -> list N) (evs : list dev), (forall m, no_nl (body m)) ->
+  let s := drun body evs dinit in
+  exists p, frames (d_out s) = (map body (d_done s), p) /\
+            match d_lock s with Some (_, m, x :: rest) => p ++ x :: rest = enc body m | _ => p = [] end.
+Proof. exact driver_frames. Qed.
+
+(* at every moment of every schedule: no request id is answered twice, and only requested ids are answered *)
+Theorem C17_at_most_one_reply : forall (body : msg -> list N) (evs : list dev),
+  let s := drun body evs dinit in
+  NoDup (d_req s) -> NoDup (replies (d_done s)) /\ incl (replies (d_done s)) (d_req s).
+Proof. exact driver_at_most_one_reply. Qed.
+
+(* whenever nothing is in flight, every request sent has exactly one reply on the wire and every log line is there once *)
+Theorem C17_exactly_one_reply_when_quiet : forall (body : msg -> list N) (evs : list dev),
+  let s := drun body evs dinit in
+  quiescent s = true -> Permutation (d_req s) (replies (d_done s)) /\ Permutation (d_emit s) (logs (d_done s)).
+Proof. exact driver_quiescent_all_answered. Qed.
+
+(* and that state can always be reached: after ANY schedule, letting the handlers finish and the writers run (nothing
+   new arriving) answers every request sent — no reply is lost, no writer is stuck, whatever the completion order *)
+Theorem C17_every_request_is_answered : forall (body : msg -> list N) (evs : list dev),
+  exists more, forallb (fun e => negb (is_input e)) more = true /\
+    let s := drun body (evs ++ more) dinit in
+    quiescent s = true /\ Permutation (d_req s) (replies (d_done s)) /\ Permutation (d_emit s) (logs (d_done s)) /\
+    d_req s = d_req (drun body evs dinit).
+Proof. exact driver_can_always_finish. Qed.
+
+(* non-vacuity, and why the shape of the select! matters: with the write inside the branch FUTURE (cancellable) the same
+   schedule loses the reply to request 1 *)
+Example C17_cancellable_select_loses_a_reply :
+  let b := fun _ : msg => [65] in
+  let s := fold_left (dstep_cancellable b) cancel_witness dinit in
+  quiescent s = true /\ d_req s = [1; 2] /\ replies (d_done s) = [2].
+Proof. exact select_cancel_loses_reply. Qed.
 
 Example C17_split_inside_separator :
   feed [] [[97; 98; 10]; [10; 99]; [10]; [10; 10; 10; 100]] = ([[97; 98]; [99]; []], [100]).
